@@ -1,6 +1,7 @@
 import Csproto.Proofs.GenDec
 import Csproto.Proofs.GenRecords
 import Csproto.Proofs.GenRoundtrip
+import Csproto.Proofs.GenNestedRoundtrip
 import Csproto.Bridge.Templates
 /-
   C06 — Generated Unmarshal agrees with the reference on every valid encoding.
@@ -115,5 +116,90 @@ example : ∀ r ∈ rsEx, r.OK mdEx := by
   simp only [rsEx, List.mem_cons, List.mem_nil_iff, or_false] at hr
   rcases hr with rfl | rfl | rfl | rfl | rfl | rfl <;>
     simp [WRec.OK, mdEx, findField, C01.ValidTag, maxTagValue, DecValid, isRep, two64, maxFieldLen, Rec.OK, Rec.tag, V.n, V.b]
+
+
+/-! ### Part 3: message-typed fields — nested, repeated, recursive types, any depth
+
+`NRec` extends `WRec` with one more record form: a message-typed field whose payload is itself a list of
+records of the field's message type.  `decodeMsgN` is the generated code's rule on such a tree (reset,
+fold the records, check required fields at every level).  It agrees with the reference rule except where
+a singular message field occurs more than once in one message (the code replaces, the reference merges:
+finding B9, `last_wins_witness`); a conforming writer's output never does that, which is what
+`roundtrip_nested` covers. -/
+
+/-- **generated `Unmarshal` on any well-formed record tree** is the structural decode of that tree -/
+theorem unmarshal_is_record_tree_decode (S : Schema) (fast : Bool) (md : MD) (rs : List NRec) (hok : OKs S md rs) :
+    unmarshal S fast md (wiresN rs) = decodeMsgN S md rs :=
+  unmarshal_nested S fast md rs hok
+
+/-- **round trip with nested messages**: for message types built from scalar fields and message-typed
+    fields (singular, repeated, recursive; no maps, no real oneofs), `Unmarshal(Marshal(m) ++ unknown)` is
+    `m` with identical presence at every level, and the unknown fields byte for byte -/
+theorem roundtrip_nested (S : Schema) (hS : SchemaOK S) (fast : Bool) (i : Nat) (fs : List F) (urs : List Rec)
+    (ops : List EncOp) (hwf : WFs S (S.md i) fs) (hok : OKFields S (S.md i) fs)
+    (hu : ∀ r ∈ urs, r.OK ∧ findField (S.md i) r.tag 0 = none)
+    (ho : opsFields S (S.md i) fs = .ok ops) :
+    unmarshal S fast (S.md i) (Gen.wiresOf ops ++ Csproto.wiresOf urs)
+      = .ok (canonFs S (S.md i) fs, Csproto.wiresOf urs) :=
+  Gen.roundtrip_nested S hS fast i fs urs ops hwf hok hu ho
+
+/-! non-vacuity of Part 3 -/
+def sN : Schema := [[⟨1, .sc .int32, .implicit⟩, ⟨2, .msg 0, .explicit⟩, ⟨3, .msg 1, .list⟩], [⟨1, .sc .string, .explicit⟩]]
+def innerN : List F := [.one (.num 0), .unset, .many []]
+def elemsN : List V := [.msg [.one (.bs [0x68])] [], .msg [.unset] []]
+def fsN : List F := [.one (.num 7), .one (.msg innerN []), .many elemsN]
+
+theorem schemaN_ok : SchemaOK sN := by
+  intro i
+  match i with
+  | 0 => simp [sN, Schema.md, NoDupNums]
+  | 1 => simp [sN, Schema.md, NoDupNums]
+  | n + 2 => simp [sN, Schema.md, NoDupNums]
+
+
+theorem opsN : ∃ ops, opsFields sN (sN.md 0) fsN = .ok ops := ⟨_, rfl⟩
+
+theorem okN : OKFields sN (sN.md 0) fsN := by
+  simp [OKFields, OKField, OKMsgV, OKMsgList, sN, Schema.md, fsN, innerN, elemsN, ValidScalar, C01.ValidTag, maxTagValue, maxFieldLen, V.n, V.b, two64]
+
+theorem wf_inner : WFs sN (sN.md 0) innerN := by
+  simp [WFs, WFf, WFvs, sN, Schema.md, innerN, ShapeOK, ValOK, isRep, C01.ValidTag, maxTagValue, DecValid, CleanV, kindOf, V.n, two64]
+
+theorem wf_elem0 : WFs sN (sN.md 1) [.one (.bs [0x68])] := by
+  simp [WFs, WFf, sN, Schema.md, ShapeOK, ValOK, isRep, C01.ValidTag, maxTagValue, DecValid, CleanV, kindOf, V.b, maxFieldLen]
+
+theorem wf_elem1 : WFs sN (sN.md 1) [.unset] := by
+  simp [WFs, WFf, sN, Schema.md]
+
+theorem len_ok (i : Nat) (fs : List F) (hwf : WFs sN (sN.md i) fs) (hok : OKFields sN (sN.md i) fs)
+    (ho : ∃ ops, opsFields sN (sN.md i) fs = .ok ops) (hs : sizeFields sN (sN.md i) fs ≤ maxFieldLen) :
+    (wiresN (recsFields sN 0 (sN.md i) fs)).length ≤ maxFieldLen := by
+  obtain ⟨ops, ho⟩ := ho
+  rw [recs_len_eq_size sN _ fs ops hok (wfs_clean sN _ fs hwf) ho]; exact hs
+
+theorem wf_top : WFs sN (sN.md 0) fsN := by
+  have h0 := len_ok 0 innerN wf_inner (by simp [OKFields, OKField, OKMsgList, sN, Schema.md, innerN, ValidScalar, C01.ValidTag, maxTagValue]) ⟨_, rfl⟩ (by decide)
+  have h1 := len_ok 1 [.one (.bs [0x68])] wf_elem0 (by simp [OKFields, OKField, sN, Schema.md, ValidScalar, C01.ValidTag, maxTagValue, V.b, maxFieldLen]) ⟨_, rfl⟩ (by decide)
+  have h2 := len_ok 1 [.unset] wf_elem1 (by simp [sN, Schema.md, OKFields, OKField]) ⟨_, rfl⟩ (by decide)
+  have e0 : sN.md 0 = [⟨1, .sc .int32, .implicit⟩, ⟨2, .msg 0, .explicit⟩, ⟨3, .msg 1, .list⟩] := rfl
+  have e1 : sN.md 1 = [⟨1, .sc .string, .explicit⟩] := rfl
+  unfold fsN elemsN
+  rw [e0]
+  simp only [WFs, WFf, WFvs, WFv, and_true, true_and]
+  refine ⟨?_, ⟨rfl, ?_, wf_inner, h0⟩, ?_, ⟨wf_elem0, h1⟩, wf_elem1, h2⟩
+  · simp [ShapeOK, ValOK, isRep, C01.ValidTag, maxTagValue, DecValid, CleanV, kindOf, V.n, two64]
+  · simp [C01.ValidTag, maxTagValue]
+  · simp [C01.ValidTag, maxTagValue]
+
+/-- non-vacuity of `roundtrip_nested`: a recursive type (field 2 of message 0 is message 0), a repeated
+    message field with one empty element, and one unknown field after the body -/
+theorem roundtrip_nested_example : ∃ ops, unmarshal sN true (sN.md 0) (Gen.wiresOf ops ++ Csproto.wiresOf [.varint 9 300])
+    = .ok (canonFs sN (sN.md 0) fsN, Csproto.wiresOf [.varint 9 300]) := by
+  obtain ⟨ops, ho⟩ := opsN
+  refine ⟨ops, roundtrip_nested sN schemaN_ok true 0 fsN [.varint 9 300] ops wf_top okN ?_ ho⟩
+  intro r hr
+  simp only [List.mem_cons, List.mem_nil_iff, or_false] at hr
+  subst hr
+  simp [Rec.OK, Rec.tag, findField, sN, Schema.md, C01.ValidTag, maxTagValue, two64]
 
 end Csproto.C06
